@@ -137,6 +137,7 @@ func runProp(pd *PropDef, repo, verif, tier, goos, goarch string, seed int64, st
 
 func runPropOn(pd *PropDef, p *Prog, verif, tier, goos, goarch string, seed int64, start time.Time) (code int) {
 	c := NewCtx(pd.ID, tier, p)
+	p.adopted = nil
 	known, kerr := loadKnown(verif + "/known_findings.json")
 	if kerr != nil {
 		fmt.Fprintln(os.Stderr, kerr)
